@@ -53,6 +53,13 @@ class Contract:
     ghost: bool = False
     is_property: bool = False
     uses: list[str] = dataclasses.field(default_factory=list)
+    # dynamic-dispatch assumption: holds whenever THIS body runs (e.g. Node.node_size is not
+    # reached for text nodes because TextNode overrides it); assumed for the body, not
+    # required of callers, listed in the evidence
+    body_requires: list[str] = dataclasses.field(default_factory=list)
+    # ghost lemma calls: (lemma name, [argument expressions over locals/params]) instantiated at
+    # every return and at every construction of an object with a class invariant
+    calls: list = dataclasses.field(default_factory=list)
 
     @property
     def key(self):
@@ -70,6 +77,7 @@ class Lemma:
     hints: list[str] = dataclasses.field(default_factory=list)
     triggers: list[str] = dataclasses.field(default_factory=list)
     uses: list[str] = dataclasses.field(default_factory=list)
+    calls: list = dataclasses.field(default_factory=list)  # ground instances of other lemmas: (name, [arg exprs])
     step: int = -1  # induction hypothesis at induct + step ...
     decreases: str | None = None  # ... admissible because this measure is >= 0 and smaller there
 
@@ -116,6 +124,8 @@ def contract(
     havoc_extra=(),
     is_property=False,
     uses=(),
+    body_requires=(),
+    calls=(),
 ):
     if cases is None:
         cases = [dict(when="True", returns=returns, ensures=list(ensures))]
@@ -138,13 +148,15 @@ def contract(
         havoc_extra=list(havoc_extra),
         is_property=is_property,
         uses=list(uses),
+        body_requires=list(body_requires),
+        calls=list(calls),
     )
     CONTRACTS[qualname] = c
     return c
 
 
-def lemma(name, vars, requires=(), ensures=(), props=(), induct=None, hints=(), triggers=(), uses=(), step=-1, decreases=None):
-    LEMMAS[name] = Lemma(name, dict(vars), list(requires), list(ensures), list(props), induct, list(hints), list(triggers), list(uses), step, decreases)
+def lemma(name, vars, requires=(), ensures=(), props=(), induct=None, hints=(), triggers=(), uses=(), step=-1, decreases=None, calls=()):
+    LEMMAS[name] = Lemma(name, dict(vars), list(requires), list(ensures), list(props), induct, list(hints), list(triggers), list(uses), list(calls), step, decreases)
 
 
 def reset():
